@@ -35,8 +35,9 @@ class Report(object):
         self.sigs = set()
         if pid not in _FILES:
             import glob
-            for f in glob.glob(os.path.join(common.FAILDIR, '%s-*.json' % pid)):
-                os.remove(f)
+            if not os.environ.get('VERIF_REPLAY'):
+                for f in glob.glob(os.path.join(common.FAILDIR, '%s-*.json' % pid)):
+                    os.remove(f)
             _FILES[pid] = 0
 
     def failure(self, sig, replay_obj):
@@ -54,7 +55,8 @@ class Report(object):
         if len(self.failures) < 12:
             os.makedirs(common.FAILDIR, exist_ok=True)
             _FILES[self.pid] += 1
-            path = os.path.join(common.FAILDIR, '%s-%d.json' % (self.pid, _FILES[self.pid]))
+            path = os.path.join(common.FAILDIR, '%s%s-%d.json' % ('replayed-' if os.environ.get('VERIF_REPLAY') else '', self.pid,
+                                                                    _FILES[self.pid]))
             replay_obj = dict(replay_obj)
             replay_obj['property'] = self.pid
             replay_obj['signature'] = sig
